@@ -68,10 +68,13 @@ def usable17(rec):
 def detected_reads(fa, bam, case, sample, chrom, U):
     from whatshap.cli import PhasedInputReader
     from whatshap.core import NumericSampleIds, Genotype
-    from whatshap.vcf import BiallelicVcfVariant
+    from whatshap.vcf import BiallelicVcfVariant, MultiallelicVcfVariant
     vs, gts = [], []
     for v in case["variants"][chrom]:
-        vs.append(BiallelicVcfVariant(v["pos"], v["ref"], v["alt"]))
+        if v.get("alts"):
+            vs.append(MultiallelicVcfVariant(v["pos"], v["ref"], list(v["alts"])))
+        else:
+            vs.append(BiallelicVcfVariant(v["pos"], v["ref"], v["alt"]))
         gts.append(Genotype(sorted(U[(sample, chrom, v["pos"])][1])))
     with PhasedInputReader([bam], fa, NumericSampleIds(), False, only_snvs=False) as pir:
         rs, _ = pir.read(chrom, vs, sample, restricted_genotypes=gts)
@@ -145,7 +148,7 @@ def run_case(ctx, case, d):
     assert len(srt) == len(trecs) and all(a["name"] == b["name"] for a, b in zip(srt, trecs)), "harness: input order"
     rg_of = {s: {rid for rid, sm in case["read_groups"] if sm == s} for s in samples}
 
-    n_new, n_sets, excluded = 0, set(), 0
+    n_new, n_sets, excluded, n_multi = 0, set(), 0, 0
     for s in samples:
         for c in case["contigs"]:
             vs = case["variants"][c]
@@ -192,6 +195,9 @@ def run_case(ctx, case, d):
                         ctx.fail(f"{c}:{v['pos'] + 1} {s}: haplotype order {fmt(o)}, the VCF that tagged the reads says {fmt(vv)}", case, key="order")
                     else:
                         n_new += 1; n_sets.add((s, c, o[2]))
+                        if v.get("alts"):
+                            n_multi += 1
+                            ctx.dist("multiallelic_genotype_reproduced", "|".join(map(str, o[1])))
                 else:
                     ctx.observe("variant unphased in V gets phased from the tagged reads (outside the statement)")
 
@@ -222,8 +228,11 @@ def run_case(ctx, case, d):
             vars_req = []
             for v in vs:
                 u = U[(s, c, v["pos"])]
-                vars_req.append([v["pos"], sorted(u[1]), ([u[2] if u[2] is not None else 0, list(u[1])] if u[0] else None),
-                                 len(v["ref"]) == 1 and len(v["alt"]) == 1])
+                # genotype vector in the order of Genotype.as_vector(): descending (allele_to_id / id_to_allele are built
+                # by enumerating it)
+                vars_req.append([v["pos"], sorted(u[1], reverse=True),
+                                 ([u[2] if u[2] is not None else 0, list(u[1])] if u[0] else None),
+                                 len(v["ref"]) == 1 and all(len(a) == 1 for a in (v.get("alts") or [v["alt"]]))])
             impl = [[v["pos"], ([O[(s, c, v["pos"])][2], *O[(s, c, v["pos"])][1]] if O[(s, c, v["pos"])][0] else None)] for v in vs]
             det = detected_reads(fa, tagged, case, s, c, U)
             # ground truth reads: alleles from the generator, tags from the tagged BAM, assembled by the model of create_read_from_group
@@ -265,6 +274,7 @@ def run_case(ctx, case, d):
                     ctx.fail(f"{c} {s}: output phase does not follow from the alleles and tags of the reads (ground truth): "
                              f"haplotagphase {diff[0][0] if diff else impl[:2]}, model {diff[0][1] if diff else a_rep}", case, key="truth-alleles")
     ctx.validated()
+    ctx.dist("multiallelic_newly_phased", min(n_multi, 8))
     ctx.dist("newly_phased", min(n_new // 3 * 3, 30)); ctx.dist("phase_sets", min(len(n_sets), 6)); ctx.dist("excluded_two_sets", min(excluded, 5))
     if n_new >= 3:
         ctx.nontrivial(json.dumps(case, sort_keys=True)[:20000])
